@@ -3965,11 +3965,14 @@ def add_measures(part):
     beat_map = part.beat_map
     inv_beat_map = part.inv_beat_map
     mcounter = 1
+    pos = ts_start_times[0]
 
     for ts_start, ts_end, measure_dur in zip(
         ts_start_times, ts_end_times, beats_per_measure
     ):
-        pos = ts_start
+        # an existing measure may reach beyond the time signature change:
+        # continue after it instead of adding a measure that overlaps it
+        pos = max(pos, ts_start)
 
         while pos < ts_end:
             measure_start = pos
